@@ -106,3 +106,6 @@ func VerifHandleLogger(w *LoggerWrapper) Logger { return w.logger }
 func VerifGlobal() (live bool, loggers, appenders int) {
 	return global.init, len(global.loggers), len(global.appenders)
 }
+
+// VerifRollingInner returns the logger a RollingFileLogger delegates to (nil before Start).
+func VerifRollingInner(f *RollingFileLogger) Logger { return f.logger }
